@@ -1,4 +1,5 @@
 #![allow(dead_code)]
+
 use std::io::BufRead;
 
 /// iterate over the non-empty lines of stdin
